@@ -755,8 +755,9 @@ class Response(_SansIOResponse):
             # wsgiref.
             if "date" not in self.headers:
                 self.headers["Date"] = http_date()
-            is206 = self._process_range_request(environ, complete_length, accept_ranges)
-            if not is206 and not is_resource_modified(
+            # The preconditions are evaluated before the Range header, which
+            # only applies to GET and if the response would otherwise be 200.
+            if not is_resource_modified(
                 environ,
                 self.headers.get("etag"),
                 None,
@@ -769,6 +770,8 @@ class Response(_SansIOResponse):
                     self.status_code = 412
                 else:
                     self.status_code = 304
+            elif environ["REQUEST_METHOD"] == "GET":
+                self._process_range_request(environ, complete_length, accept_ranges)
             if (
                 self.automatically_set_content_length
                 and "content-length" not in self.headers
